@@ -274,19 +274,22 @@ class C06(Check):
                    cls=f"{case['k']}/{'startL' if start_is_larger else 'endL'}/types{case['types']}/{case['restr']}/ign{int(case['ign'])}")
             for sig, det in judge(desc, ali, proposals, events, cut, err):
                 R.violation(sig, desc, det)
-            # bit-identical replay of the same choice vector (every 7th execution)
-            if not cut and R.traces % 7 == 0:
-                ctx2 = Ctx(list(ctx.trace))
-                ali2 = one(ctx2)[0]
-                R.add('replayed_twice', 1)
-                if not (np.array_equal(ali2.start.atoms_positions, ali.start.atoms_positions) and
-                        np.array_equal(ali2.end.atoms_positions, ali.end.atoms_positions) and
-                        ctx2.trace == ctx.trace):
-                    R.violation('align/not-deterministic-under-same-random-stream', desc, '')
+            # bit-identical replay of the same choice vector (every 5th execution; a replayed
+            # counterexample is repeated several times because its failure is a coin toss by nature)
+            if not cut and (R.traces % 5 == 0 or 'choices' in case):
+                for _ in range(8 if 'choices' in case else 1):
+                    ctx2 = Ctx(list(ctx.trace))
+                    ali2 = one(ctx2)[0]
+                    R.add('replayed_twice', 1)
+                    if not (np.array_equal(ali2.start.atoms_positions, ali.start.atoms_positions) and
+                            np.array_equal(ali2.end.atoms_positions, ali.end.atoms_positions) and
+                            ctx2.trace == ctx.trace):
+                        R.violation('align/not-deterministic-under-same-random-stream', desc, '')
+                        break
 
         if case['k'] == 'seeds':
             # supplementary: the real generator, same seed twice -> bit-identical
-            for rs in range(4):
+            for rs in range(8):
                 o1 = one(None, rng_seed=rs)
                 o2 = one(None, rng_seed=rs)
                 desc = dict(case, rng_seed=rs)
